@@ -35,7 +35,8 @@ META = {
                      'constructor-argument typing)'],
     'assumptions': ['unresolved calls (framework objects) are not checked'],
     'decided': ['D1 call conformance on all resolved edges',
-                'D2 proxy binding roles', 'D3 both acquisition paths',
+                'D2 proxy binding roles', 'D3 both acquisition paths; introspection parse state is per '
+                'parse',
                 'D4 the links of the call chain: the clauses of C08 '
                 '(pending-call bookkeeping, reply-value convention), C10 '
                 '(one addressed reply, binding, reply packaging) and C14 '
@@ -218,6 +219,12 @@ def run(ctx):
     ctx.ob('C11.D3', gx.qualname, 'returns-interface-list', okr,
            'getInterfacesFromXML must return the handler\'s interface list')
     composition(ctx)
+    from .c09 import per_instance_registries
+    per_instance_registries(
+        ctx, 'C11.D3', ('introspection', 'interface', 'objects'),
+        'every introspected proxy is built from the interfaces of ALL '
+        'objects introspected so far, so a method name resolves to another '
+        'object\'s interface')
     ctx.floor('C11.D4', 60)
     ctx.floor('C11.D1', 150)
     ctx.floor('C11.D2', 7)
